@@ -170,6 +170,12 @@ type serResult struct {
 var serHung atomic.Bool
 
 func runSer(d *sbom.Document, f formats.Format, indent int, nilRender bool) string {
+	return runSerWith(nil, d, f, indent, nilRender)
+}
+
+// runSerWith writes through the given writer (a caller that keeps one writer for all its documents),
+// or through a new one
+func runSerWith(keep *writer.Writer, d *sbom.Document, f formats.Format, indent int, nilRender bool) string {
 	if serHung.Load() {
 		return "skipped-after-hang"
 	}
@@ -182,11 +188,9 @@ func runSer(d *sbom.Document, f formats.Format, indent int, nilRender bool) stri
 			}
 			ch <- r
 		}()
-		var w *writer.Writer
-		if nilRender {
-			w = writer.New(writer.WithFormat(f))
-		} else {
-			w = writer.New(writer.WithFormat(f), writer.WithRenderOptions(&native.RenderOptions{Indent: indent}))
+		w := keep
+		if w == nil {
+			w = newSerWriter(f, indent, nilRender)
 		}
 		buf := nopCloser{&bytes.Buffer{}}
 		r.err = w.WriteStream(d, buf)
@@ -209,6 +213,13 @@ func runSer(d *sbom.Document, f formats.Format, indent int, nilRender bool) stri
 	}
 }
 
+func newSerWriter(f formats.Format, indent int, nilRender bool) *writer.Writer {
+	if nilRender {
+		return writer.New(writer.WithFormat(f))
+	}
+	return writer.New(writer.WithFormat(f), writer.WithRenderOptions(&native.RenderOptions{Indent: indent}))
+}
+
 func ExecSer(op M) (res any) {
 	defer func() {
 		// the serializers run under their own recover (runSer); a panic here is a malformed
@@ -225,6 +236,7 @@ func ExecSer(op M) (res any) {
 	// is serialized from the very value that was serialized before (a serializer that edits its
 	// input shows up as a different output the second time)
 	objs := map[string]*sbom.Document{}
+	writers := map[string]*writer.Writer{}
 	for _, s := range asList(op["docs"]) {
 		sm, ok := s.(M)
 		if !ok {
@@ -244,7 +256,16 @@ func ExecSer(op M) (res any) {
 			d = serDocOf(sm)
 			objs[key] = d
 		}
-		out = append(out, runSer(d, f, indent, sm["nilRender"] == true))
+		var keep *writer.Writer
+		if op["oneWriter"] == true {
+			// one writer per configuration for the whole sequence
+			wk := fmt.Sprintf("%s|%d|%v", f, indent, sm["nilRender"] == true)
+			if writers[wk] == nil {
+				writers[wk] = newSerWriter(f, indent, sm["nilRender"] == true)
+			}
+			keep = writers[wk]
+		}
+		out = append(out, runSerWith(keep, d, f, indent, sm["nilRender"] == true))
 	}
 	return out
 }
@@ -385,6 +406,27 @@ func serGen(g *G, tier string) []M {
 				ops = append(ops, M{"op": "serSeq", "fmt": string(ff), "docs": []any{mk(dia), mk(dia), mk(dia), mk(dia), mk(dia), mk(dia)}})
 			}
 		}
+	}
+	// every third history goes through one writer per format (same indentation for all its entries)
+	// instead of a new writer per document
+	for i, op := range ops {
+		if i%3 != 1 {
+			continue
+		}
+		ds := asList(op["docs"])
+		if len(ds) < 2 {
+			continue
+		}
+		var indent any
+		for _, d := range ds {
+			if dm, ok := d.(M); ok && dm["indent"] != nil {
+				if indent == nil {
+					indent = dm["indent"]
+				}
+				dm["indent"] = indent
+			}
+		}
+		op["oneWriter"] = true
 	}
 	return ops
 }
